@@ -459,181 +459,6 @@ theorem recK_physical : ∀ esu edu etu ftu tmsu,
     |recK esu edu etu ftu tmsu * C09.siSpeed tmsu / C09.siSpeed esu - 1| ≤ C09.tol := by
   decide +kernel
 
-/-! ## Energy of an edge of the route, and additivity -/
-
-/-- the energy the property prescribes for an edge, in the rate's energy unit: the record's rate at
-the edge's speed (table entry × `recK`, converted to the prediction model's speed unit) and grade
-(table entry converted to the model's grade unit) × real-world adjustment × the edge's length in the
-rate's distance unit -/
-def edgeEnergy (svc : Service α) (eng : SpeedEngine α) (fu : FeatureUnits) (r : PredRecord α)
-    (e : Edge α) (speed grade : α) : α :=
-  r.rate
-      (svc.timeModelSpeedUnit.convert r.speedUnit
-        (speed * (recK eng.speedUnit eng.distanceUnit eng.timeUnit fu.time svc.timeModelSpeedUnit : α)))
-      (svc.gradeUnit.convert r.gradeUnit grade)
-    * r.adjustment
-    * svc.distanceUnit.convert r.rateUnit.associatedDistanceUnit
-        (baseDistanceUnit.convert svc.distanceUnit e.distance)
-
-/-- what `traverse_edge` hands to the vehicle -/
-theorem traverseEdge_inputs {svc : Service α} {eng : SpeedEngine α} {v : Vehicle α} {fu : FeatureUnits}
-    {e : Edge α} {st st' : VState α × Caches K α} {speed grade : α}
-    (h : traverseEdge svc eng v fu e st = .ok st')
-    (hs : eng.speedTable[e.id]? = some speed) (hg : getGrade svc.gradeTable e.id = .ok grade) :
-    ∃ s1, s1.liquid = st.1.liquid ∧ s1.electric = st.1.electric ∧ s1.soc = st.1.soc ∧
-      st' = v.consumeEnergy fu st.2
-              (speed * (recK eng.speedUnit eng.distanceUnit eng.timeUnit fu.time svc.timeModelSpeedUnit : α))
-              svc.timeModelSpeedUnit grade svc.gradeUnit
-              (baseDistanceUnit.convert svc.distanceUnit e.distance) svc.distanceUnit s1 := by
-  obtain ⟨s1, grade', h1, hg', rfl⟩ := traverseEdge_ok h
-  rw [hg] at hg'; cases hg'
-  obtain ⟨a, b, c⟩ := traverse_soc h1
-  exact ⟨s1, b, c, a, by rw [speed_reconstruction svc eng fu e st.1 s1 speed h1 hs]⟩
-
-/-- C08 `edge_energy` (ICE, no cache): the energy recorded for the edge is `edgeEnergy`, converted
-to the unit of the `energy_liquid` feature. -/
-theorem edge_energy_ice (svc : Service α) (eng : SpeedEngine α) (r : PredRecord α) (fu : FeatureUnits)
-    (e : Edge α) (st st' : VState α × Caches K α) (speed grade : α)
-    (h : traverseEdge svc eng (.ice r) fu e st = .ok st')
-    (hs : eng.speedTable[e.id]? = some speed) (hg : getGrade svc.gradeTable e.id = .ok grade)
-    (hc : st.2.main = none) :
-    st'.1.liquid = st.1.liquid
-      + r.rateUnit.associatedEnergyUnit.convert fu.liquid (edgeEnergy svc eng fu r e speed grade) := by
-  obtain ⟨s1, hl, _, _, rfl⟩ := traverseEdge_inputs h hs hg
-  rw [(ice_edge_energy r fu st.2 _ _ _ _ _ _ s1).1, hl, hc]
-  rfl
-
-/-- C08 `edge_energy` (BEV, no cache), with the battery step in the same terms -/
-theorem edge_energy_bev (svc : Service α) (eng : SpeedEngine α) (r : PredRecord α) (b : Battery α)
-    (fu : FeatureUnits) (e : Edge α) (st st' : VState α × Caches K α) (speed grade : α)
-    (h : traverseEdge svc eng (.bev r b) fu e st = .ok st')
-    (hs : eng.speedTable[e.id]? = some speed) (hg : getGrade svc.gradeTable e.id = .ok grade)
-    (hc : st.2.main = none) (hcap : b.capacity ≠ 0) :
-    st'.1.electric = st.1.electric
-        + r.rateUnit.associatedEnergyUnit.convert fu.electric (edgeEnergy svc eng fu r e speed grade)
-      ∧ st'.1.soc = clamp (st.1.soc - 100 * r.rateUnit.associatedEnergyUnit.convert b.unit
-                              (edgeEnergy svc eng fu r e speed grade) / b.capacity) 0 100 := by
-  obtain ⟨s1, _, hel, hsoc, rfl⟩ := traverseEdge_inputs h hs hg
-  rw [(bev_edge_energy r b fu st.2 _ _ _ _ _ _ s1).1, bev_soc_step r b fu st.2 _ _ _ _ _ _ s1 hcap,
-    hel, hsoc, hc]
-  exact ⟨rfl, rfl⟩
-
-/-- C08 `edge_energy` (PHEV, no cache): with charge remaining the charge-depleting record's
-`edgeEnergy` goes to `energy_electric` (and the battery), `energy_liquid` is untouched … -/
-theorem edge_energy_phev_electric (svc : Service α) (eng : SpeedEngine α) (sus dep : PredRecord α)
-    (b : Battery α) (fu : FeatureUnits) (e : Edge α) (st st' : VState α × Caches K α) (speed grade : α)
-    (h : traverseEdge svc eng (.phev sus dep b) fu e st = .ok st')
-    (hs : eng.speedTable[e.id]? = some speed) (hg : getGrade svc.gradeTable e.id = .ok grade)
-    (hc : st.2.main = none) (hcap : b.capacity ≠ 0) (hsoc : 0 < st.1.soc) :
-    st'.1.liquid = st.1.liquid
-      ∧ st'.1.electric = st.1.electric
-          + dep.rateUnit.associatedEnergyUnit.convert fu.electric (edgeEnergy svc eng fu dep e speed grade)
-      ∧ st'.1.soc = clamp (st.1.soc - 100 * dep.rateUnit.associatedEnergyUnit.convert b.unit
-                              (edgeEnergy svc eng fu dep e speed grade) / b.capacity) 0 100 := by
-  obtain ⟨s1, hl, hel, hs1, rfl⟩ := traverseEdge_inputs h hs hg
-  have := phev_switch_electric sus dep b fu st.2
-    (speed * (recK eng.speedUnit eng.distanceUnit eng.timeUnit fu.time svc.timeModelSpeedUnit : α))
-    svc.timeModelSpeedUnit grade svc.gradeUnit (baseDistanceUnit.convert svc.distanceUnit e.distance)
-    svc.distanceUnit s1 hcap (by rw [hs1]; exact hsoc)
-  obtain ⟨p1, p2, p3⟩ := this
-  rw [p1, p2, p3, hl, hel, hs1, hc]
-  exact ⟨rfl, rfl, rfl⟩
-
-/-- … and entered empty, the charge-sustaining record's `edgeEnergy` goes to `energy_liquid`,
-`energy_electric` is untouched. -/
-theorem edge_energy_phev_liquid (svc : Service α) (eng : SpeedEngine α) (sus dep : PredRecord α)
-    (b : Battery α) (fu : FeatureUnits) (e : Edge α) (st st' : VState α × Caches K α) (speed grade : α)
-    (h : traverseEdge svc eng (.phev sus dep b) fu e st = .ok st')
-    (hs : eng.speedTable[e.id]? = some speed) (hg : getGrade svc.gradeTable e.id = .ok grade)
-    (hc : st.2.sustain = none) (hcap : b.capacity ≠ 0) (hsoc : st.1.soc ≤ 0) :
-    st'.1.electric = st.1.electric
-      ∧ st'.1.liquid = st.1.liquid
-          + sus.rateUnit.associatedEnergyUnit.convert fu.liquid (edgeEnergy svc eng fu sus e speed grade) := by
-  obtain ⟨s1, hl, hel, hs1, rfl⟩ := traverseEdge_inputs h hs hg
-  have := phev_switch_liquid sus dep b fu st.2
-    (speed * (recK eng.speedUnit eng.distanceUnit eng.timeUnit fu.time svc.timeModelSpeedUnit : α))
-    svc.timeModelSpeedUnit grade svc.gradeUnit (baseDistanceUnit.convert svc.distanceUnit e.distance)
-    svc.distanceUnit s1 hcap (by rw [hs1]; exact hsoc)
-  obtain ⟨p1, p2, _⟩ := this
-  rw [p1, p2, hl, hel, hc]
-  exact ⟨rfl, rfl⟩
-
-/-- the energies (`energy_liquid`, `energy_electric`), in the units of the state features, that
-`consume_energy` draws for one edge: the prediction converted from the rate's energy unit -/
-def draw (v : Vehicle α) (fu : FeatureUnits) (c : Caches K α)
-    (speed : α) (su : SpeedUnit) (grade : α) (gu : GradeUnit) (d : α) (du : DistanceUnit) (s : VState α) : α × α :=
-  match v with
-  | .ice r => (r.rateUnit.associatedEnergyUnit.convert fu.liquid (r.predict c.main speed su grade gu d du).1.1, 0)
-  | .bev r _ => (0, r.rateUnit.associatedEnergyUnit.convert fu.electric (r.predict c.main speed su grade gu d du).1.1)
-  | .phev sus dep _ =>
-    if 0 < s.soc then
-      (0, dep.rateUnit.associatedEnergyUnit.convert fu.electric (dep.predict c.main speed su grade gu d du).1.1)
-    else
-      (sus.rateUnit.associatedEnergyUnit.convert fu.liquid (sus.predict c.sustain speed su grade gu d du).1.1, 0)
-
-/-- every vehicle, any cache, any units: the accumulators grow by exactly the edge's draw -/
-theorem consume_adds (v : Vehicle α) (fu : FeatureUnits) (c : Caches K α)
-    (speed : α) (su : SpeedUnit) (grade : α) (gu : GradeUnit) (d : α) (du : DistanceUnit) (s : VState α) :
-    (v.consumeEnergy fu c speed su grade gu d du s).1.liquid
-        = s.liquid + (draw v fu c speed su grade gu d du s).1
-      ∧ (v.consumeEnergy fu c speed su grade gu d du s).1.electric
-        = s.electric + (draw v fu c speed su grade gu d du s).2 := by
-  cases v with
-  | ice r => simp [Vehicle.consumeEnergy, iceApply, draw]
-  | bev r b => simp [Vehicle.consumeEnergy, bevApply, draw]
-  | phev sus dep b =>
-    by_cases hsoc : 0 < s.soc
-    · have hz : (zero : α) < s.soc := by rw [zero_eq]; exact hsoc
-      simp [Vehicle.consumeEnergy, phevApply, draw, hsoc, hz, EnergyUnit.convert, Factor.apply_eq]
-    · have hz : ¬ (zero : α) < s.soc := by rw [zero_eq]; exact hsoc
-      simp [Vehicle.consumeEnergy, phevApply, draw, hsoc, hz, EnergyUnit.convert, Factor.apply_eq]
-
-/-- the draws along a route, edge by edge, as the run produces them -/
-def routeDraws (svc : Service α) (eng : SpeedEngine α) (v : Vehicle α) (fu : FeatureUnits) :
-    List (Edge α) → VState α × Caches K α → List (α × α)
-  | [], _ => []
-  | e :: es, st =>
-    match eng.traverse fu e st.1, getGrade svc.gradeTable e.id, traverseEdge svc eng v fu e st with
-    | .ok s1, .ok grade, .ok st' =>
-      draw v fu st.2 (reconstructSpeed svc fu e st.1 s1) svc.timeModelSpeedUnit grade svc.gradeUnit
-          (baseDistanceUnit.convert svc.distanceUnit e.distance) svc.distanceUnit s1
-        :: routeDraws svc eng v fu es st'
-    | _, _, _ => []
-
-/-- C08 `energy_additive`: for every vehicle, edge sequence, cache and unit configuration, the
-accumulated `energy_liquid` / `energy_electric` after the route are the starting values plus the sum
-of the per-edge draws (each the edge's predicted energy converted from the rate's energy unit to
-the feature's unit), one draw per edge. -/
-theorem energy_additive (svc : Service α) (eng : SpeedEngine α) (v : Vehicle α) (fu : FeatureUnits)
-    (edges : List (Edge α)) (st st' : VState α × Caches K α)
-    (h : traverseRoute svc eng v fu edges st = .ok st') :
-    st'.1.liquid = st.1.liquid + ((routeDraws svc eng v fu edges st).map Prod.fst).sum
-      ∧ st'.1.electric = st.1.electric + ((routeDraws svc eng v fu edges st).map Prod.snd).sum
-      ∧ (routeDraws svc eng v fu edges st).length = edges.length := by
-  induction edges generalizing st with
-  | nil => simp only [traverseRoute] at h; cases h; simp [routeDraws]
-  | cons e es ih =>
-    simp only [traverseRoute] at h
-    split at h
-    · cases h
-    · rename_i st1 h1
-      obtain ⟨s1, grade, ht, hg, hst1⟩ := traverseEdge_ok h1
-      obtain ⟨_, hl, hel⟩ := traverse_soc ht
-      obtain ⟨i1, i2, i3⟩ := ih st1 h
-      have hd : routeDraws svc eng v fu (e :: es) st
-          = draw v fu st.2 (reconstructSpeed svc fu e st.1 s1) svc.timeModelSpeedUnit grade svc.gradeUnit
-              (baseDistanceUnit.convert svc.distanceUnit e.distance) svc.distanceUnit s1
-            :: routeDraws svc eng v fu es st1 := by
-        simp only [routeDraws, ht, hg, h1]
-      obtain ⟨c1, c2⟩ := consume_adds v fu st.2 (reconstructSpeed svc fu e st.1 s1) svc.timeModelSpeedUnit
-        grade svc.gradeUnit (baseDistanceUnit.convert svc.distanceUnit e.distance) svc.distanceUnit s1
-      have c1' := c1; have c2' := c2
-      rw [← hst1] at c1' c2'
-      refine ⟨?_, ?_, ?_⟩
-      · rw [hd, i1, c1', hl]; simp only [List.map_cons, List.sum_cons]; ring
-      · rw [hd, i2, c2', hel]; simp only [List.map_cons, List.sum_cons]; ring
-      · rw [hd]; simp only [List.length_cons, i3]
-
 /-! ## The prediction cache -/
 
 /-- every cached rate is the prediction for every input that maps to its key (for the fixed units
@@ -732,12 +557,205 @@ theorem predict_fine (r : PredRecord α) (su : SpeedUnit) (gu : GradeUnit) (c : 
     cases h
     exact ⟨hs', by rw [hkey]; exact hk⟩
 
+/-- no cache is a fine cache -/
+theorem cacheFine_none (r : PredRecord α) (su : SpeedUnit) (gu : GradeUnit) :
+    CacheFine r su gu (none : Option (Cache K α)) := by
+  intro cm h; cases h
+
 /-- non-vacuity of `CacheFine`: an empty cache keyed by the exact pair of inputs, any capacity -/
 theorem cacheFine_exact_empty (r : PredRecord α) (su : SpeedUnit) (gu : GradeUnit) (n : Nat) :
     CacheFine r su gu (some ({ capacity := n, keyOf := fun s g => (s, g), entries := [] } : Cache (α × α) α)) := by
   intro cm h
   cases h
   exact ⟨cacheSound_empty r su gu n _, keyDetermines_exact r su gu⟩
+
+/-! ## Energy of an edge of the route, and additivity -/
+
+/-- the energy the property prescribes for an edge, in the rate's energy unit: the record's rate at
+the edge's speed (table entry × `recK`, converted to the prediction model's speed unit) and grade
+(table entry converted to the model's grade unit) × real-world adjustment × the edge's length in the
+rate's distance unit -/
+def edgeEnergy (svc : Service α) (eng : SpeedEngine α) (fu : FeatureUnits) (r : PredRecord α)
+    (e : Edge α) (speed grade : α) : α :=
+  r.rate
+      (svc.timeModelSpeedUnit.convert r.speedUnit
+        (speed * (recK eng.speedUnit eng.distanceUnit eng.timeUnit fu.time svc.timeModelSpeedUnit : α)))
+      (svc.gradeUnit.convert r.gradeUnit grade)
+    * r.adjustment
+    * svc.distanceUnit.convert r.rateUnit.associatedDistanceUnit
+        (baseDistanceUnit.convert svc.distanceUnit e.distance)
+
+/-- what `traverse_edge` hands to the vehicle -/
+theorem traverseEdge_inputs {svc : Service α} {eng : SpeedEngine α} {v : Vehicle α} {fu : FeatureUnits}
+    {e : Edge α} {st st' : VState α × Caches K α} {speed grade : α}
+    (h : traverseEdge svc eng v fu e st = .ok st')
+    (hs : eng.speedTable[e.id]? = some speed) (hg : getGrade svc.gradeTable e.id = .ok grade) :
+    ∃ s1, s1.liquid = st.1.liquid ∧ s1.electric = st.1.electric ∧ s1.soc = st.1.soc ∧
+      st' = v.consumeEnergy fu st.2
+              (speed * (recK eng.speedUnit eng.distanceUnit eng.timeUnit fu.time svc.timeModelSpeedUnit : α))
+              svc.timeModelSpeedUnit grade svc.gradeUnit
+              (baseDistanceUnit.convert svc.distanceUnit e.distance) svc.distanceUnit s1 := by
+  obtain ⟨s1, grade', h1, hg', rfl⟩ := traverseEdge_ok h
+  rw [hg] at hg'; cases hg'
+  obtain ⟨a, b, c⟩ := traverse_soc h1
+  exact ⟨s1, b, c, a, by rw [speed_reconstruction svc eng fu e st.1 s1 speed h1 hs]⟩
+
+/-
+Full statement of `edge_energy`: for every vehicle, unit configuration and cache, the energy recorded
+for an edge is `edgeEnergy` (rate at the edge's speed and grade × adjustment × length) in the
+feature's unit.  It is false for an arbitrary cache (`cache_key_collision_counterexample`,
+`cache_rounding_counterexample`: the float cache's rounded / truncated key lets an edge be charged
+the rate of an earlier, different speed or grade); it is proved below without a cache and with any
+cache that is sound and whose key determines the prediction (`CacheFine`, e.g. an exact key) —
+hence `_partial`.
+-/
+/-- C08 `edge_energy` (ICE): the energy recorded for the edge is `edgeEnergy`, converted to the
+unit of the `energy_liquid` feature. -/
+theorem edge_energy_ice_partial (svc : Service α) (eng : SpeedEngine α) (r : PredRecord α) (fu : FeatureUnits)
+    (e : Edge α) (st st' : VState α × Caches K α) (speed grade : α)
+    (h : traverseEdge svc eng (.ice r) fu e st = .ok st')
+    (hs : eng.speedTable[e.id]? = some speed) (hg : getGrade svc.gradeTable e.id = .ok grade)
+    (hc : CacheFine r svc.timeModelSpeedUnit svc.gradeUnit st.2.main) :
+    st'.1.liquid = st.1.liquid
+      + r.rateUnit.associatedEnergyUnit.convert fu.liquid (edgeEnergy svc eng fu r e speed grade) := by
+  obtain ⟨s1, hl, _, _, rfl⟩ := traverseEdge_inputs h hs hg
+  rw [(ice_edge_energy r fu st.2 _ _ _ _ _ _ s1).1, hl, (predict_fine r _ _ st.2.main _ _ _ _ hc).1]
+  rfl
+
+/-- C08 `edge_energy` (BEV), with the battery step in the same terms -/
+theorem edge_energy_bev_partial (svc : Service α) (eng : SpeedEngine α) (r : PredRecord α) (b : Battery α)
+    (fu : FeatureUnits) (e : Edge α) (st st' : VState α × Caches K α) (speed grade : α)
+    (h : traverseEdge svc eng (.bev r b) fu e st = .ok st')
+    (hs : eng.speedTable[e.id]? = some speed) (hg : getGrade svc.gradeTable e.id = .ok grade)
+    (hc : CacheFine r svc.timeModelSpeedUnit svc.gradeUnit st.2.main) (hcap : b.capacity ≠ 0) :
+    st'.1.electric = st.1.electric
+        + r.rateUnit.associatedEnergyUnit.convert fu.electric (edgeEnergy svc eng fu r e speed grade)
+      ∧ st'.1.soc = clamp (st.1.soc - 100 * r.rateUnit.associatedEnergyUnit.convert b.unit
+                              (edgeEnergy svc eng fu r e speed grade) / b.capacity) 0 100 := by
+  obtain ⟨s1, _, hel, hsoc, rfl⟩ := traverseEdge_inputs h hs hg
+  rw [(bev_edge_energy r b fu st.2 _ _ _ _ _ _ s1).1, bev_soc_step r b fu st.2 _ _ _ _ _ _ s1 hcap,
+    hel, hsoc, (predict_fine r _ _ st.2.main _ _ _ _ hc).1]
+  exact ⟨rfl, rfl⟩
+
+/-- C08 `edge_energy` (PHEV): with charge remaining the charge-depleting record's
+`edgeEnergy` goes to `energy_electric` (and the battery), `energy_liquid` is untouched … -/
+theorem edge_energy_phev_electric_partial (svc : Service α) (eng : SpeedEngine α) (sus dep : PredRecord α)
+    (b : Battery α) (fu : FeatureUnits) (e : Edge α) (st st' : VState α × Caches K α) (speed grade : α)
+    (h : traverseEdge svc eng (.phev sus dep b) fu e st = .ok st')
+    (hs : eng.speedTable[e.id]? = some speed) (hg : getGrade svc.gradeTable e.id = .ok grade)
+    (hc : CacheFine dep svc.timeModelSpeedUnit svc.gradeUnit st.2.main) (hcap : b.capacity ≠ 0)
+    (hsoc : 0 < st.1.soc) :
+    st'.1.liquid = st.1.liquid
+      ∧ st'.1.electric = st.1.electric
+          + dep.rateUnit.associatedEnergyUnit.convert fu.electric (edgeEnergy svc eng fu dep e speed grade)
+      ∧ st'.1.soc = clamp (st.1.soc - 100 * dep.rateUnit.associatedEnergyUnit.convert b.unit
+                              (edgeEnergy svc eng fu dep e speed grade) / b.capacity) 0 100 := by
+  obtain ⟨s1, hl, hel, hs1, rfl⟩ := traverseEdge_inputs h hs hg
+  have := phev_switch_electric sus dep b fu st.2
+    (speed * (recK eng.speedUnit eng.distanceUnit eng.timeUnit fu.time svc.timeModelSpeedUnit : α))
+    svc.timeModelSpeedUnit grade svc.gradeUnit (baseDistanceUnit.convert svc.distanceUnit e.distance)
+    svc.distanceUnit s1 hcap (by rw [hs1]; exact hsoc)
+  obtain ⟨p1, p2, p3⟩ := this
+  rw [p1, p2, p3, hl, hel, hs1, (predict_fine dep _ _ st.2.main _ _ _ _ hc).1]
+  exact ⟨rfl, rfl, rfl⟩
+
+/-- … and entered empty, the charge-sustaining record's `edgeEnergy` goes to `energy_liquid`,
+`energy_electric` is untouched. -/
+theorem edge_energy_phev_liquid_partial (svc : Service α) (eng : SpeedEngine α) (sus dep : PredRecord α)
+    (b : Battery α) (fu : FeatureUnits) (e : Edge α) (st st' : VState α × Caches K α) (speed grade : α)
+    (h : traverseEdge svc eng (.phev sus dep b) fu e st = .ok st')
+    (hs : eng.speedTable[e.id]? = some speed) (hg : getGrade svc.gradeTable e.id = .ok grade)
+    (hc : CacheFine sus svc.timeModelSpeedUnit svc.gradeUnit st.2.sustain) (hcap : b.capacity ≠ 0)
+    (hsoc : st.1.soc ≤ 0) :
+    st'.1.electric = st.1.electric
+      ∧ st'.1.liquid = st.1.liquid
+          + sus.rateUnit.associatedEnergyUnit.convert fu.liquid (edgeEnergy svc eng fu sus e speed grade) := by
+  obtain ⟨s1, hl, hel, hs1, rfl⟩ := traverseEdge_inputs h hs hg
+  have := phev_switch_liquid sus dep b fu st.2
+    (speed * (recK eng.speedUnit eng.distanceUnit eng.timeUnit fu.time svc.timeModelSpeedUnit : α))
+    svc.timeModelSpeedUnit grade svc.gradeUnit (baseDistanceUnit.convert svc.distanceUnit e.distance)
+    svc.distanceUnit s1 hcap (by rw [hs1]; exact hsoc)
+  obtain ⟨p1, p2, _⟩ := this
+  rw [p1, p2, hl, hel, (predict_fine sus _ _ st.2.sustain _ _ _ _ hc).1]
+  exact ⟨rfl, rfl⟩
+
+/-- the energies (`energy_liquid`, `energy_electric`), in the units of the state features, that
+`consume_energy` draws for one edge: the prediction converted from the rate's energy unit -/
+def draw (v : Vehicle α) (fu : FeatureUnits) (c : Caches K α)
+    (speed : α) (su : SpeedUnit) (grade : α) (gu : GradeUnit) (d : α) (du : DistanceUnit) (s : VState α) : α × α :=
+  match v with
+  | .ice r => (r.rateUnit.associatedEnergyUnit.convert fu.liquid (r.predict c.main speed su grade gu d du).1.1, 0)
+  | .bev r _ => (0, r.rateUnit.associatedEnergyUnit.convert fu.electric (r.predict c.main speed su grade gu d du).1.1)
+  | .phev sus dep _ =>
+    if 0 < s.soc then
+      (0, dep.rateUnit.associatedEnergyUnit.convert fu.electric (dep.predict c.main speed su grade gu d du).1.1)
+    else
+      (sus.rateUnit.associatedEnergyUnit.convert fu.liquid (sus.predict c.sustain speed su grade gu d du).1.1, 0)
+
+/-- every vehicle, any cache, any units: the accumulators grow by exactly the edge's draw -/
+theorem consume_adds (v : Vehicle α) (fu : FeatureUnits) (c : Caches K α)
+    (speed : α) (su : SpeedUnit) (grade : α) (gu : GradeUnit) (d : α) (du : DistanceUnit) (s : VState α) :
+    (v.consumeEnergy fu c speed su grade gu d du s).1.liquid
+        = s.liquid + (draw v fu c speed su grade gu d du s).1
+      ∧ (v.consumeEnergy fu c speed su grade gu d du s).1.electric
+        = s.electric + (draw v fu c speed su grade gu d du s).2 := by
+  cases v with
+  | ice r => simp [Vehicle.consumeEnergy, iceApply, draw]
+  | bev r b => simp [Vehicle.consumeEnergy, bevApply, draw]
+  | phev sus dep b =>
+    by_cases hsoc : 0 < s.soc
+    · have hz : (zero : α) < s.soc := by rw [zero_eq]; exact hsoc
+      simp [Vehicle.consumeEnergy, phevApply, draw, hsoc, hz, EnergyUnit.convert, Factor.apply_eq]
+    · have hz : ¬ (zero : α) < s.soc := by rw [zero_eq]; exact hsoc
+      simp [Vehicle.consumeEnergy, phevApply, draw, hsoc, hz, EnergyUnit.convert, Factor.apply_eq]
+
+/-- the draws along a route, edge by edge, as the run produces them -/
+def routeDraws (svc : Service α) (eng : SpeedEngine α) (v : Vehicle α) (fu : FeatureUnits) :
+    List (Edge α) → VState α × Caches K α → List (α × α)
+  | [], _ => []
+  | e :: es, st =>
+    match eng.traverse fu e st.1, getGrade svc.gradeTable e.id, traverseEdge svc eng v fu e st with
+    | .ok s1, .ok grade, .ok st' =>
+      draw v fu st.2 (reconstructSpeed svc fu e st.1 s1) svc.timeModelSpeedUnit grade svc.gradeUnit
+          (baseDistanceUnit.convert svc.distanceUnit e.distance) svc.distanceUnit s1
+        :: routeDraws svc eng v fu es st'
+    | _, _, _ => []
+
+/-- C08 `energy_additive`: for every vehicle, edge sequence, cache and unit configuration, the
+accumulated `energy_liquid` / `energy_electric` after the route are the starting values plus the sum
+of the per-edge draws (each the edge's predicted energy converted from the rate's energy unit to
+the feature's unit), one draw per edge. -/
+theorem energy_additive (svc : Service α) (eng : SpeedEngine α) (v : Vehicle α) (fu : FeatureUnits)
+    (edges : List (Edge α)) (st st' : VState α × Caches K α)
+    (h : traverseRoute svc eng v fu edges st = .ok st') :
+    st'.1.liquid = st.1.liquid + ((routeDraws svc eng v fu edges st).map Prod.fst).sum
+      ∧ st'.1.electric = st.1.electric + ((routeDraws svc eng v fu edges st).map Prod.snd).sum
+      ∧ (routeDraws svc eng v fu edges st).length = edges.length := by
+  induction edges generalizing st with
+  | nil => simp only [traverseRoute] at h; cases h; simp [routeDraws]
+  | cons e es ih =>
+    simp only [traverseRoute] at h
+    split at h
+    · cases h
+    · rename_i st1 h1
+      obtain ⟨s1, grade, ht, hg, hst1⟩ := traverseEdge_ok h1
+      obtain ⟨_, hl, hel⟩ := traverse_soc ht
+      obtain ⟨i1, i2, i3⟩ := ih st1 h
+      have hd : routeDraws svc eng v fu (e :: es) st
+          = draw v fu st.2 (reconstructSpeed svc fu e st.1 s1) svc.timeModelSpeedUnit grade svc.gradeUnit
+              (baseDistanceUnit.convert svc.distanceUnit e.distance) svc.distanceUnit s1
+            :: routeDraws svc eng v fu es st1 := by
+        simp only [routeDraws, ht, hg, h1]
+      obtain ⟨c1, c2⟩ := consume_adds v fu st.2 (reconstructSpeed svc fu e st.1 s1) svc.timeModelSpeedUnit
+        grade svc.gradeUnit (baseDistanceUnit.convert svc.distanceUnit e.distance) svc.distanceUnit s1
+      have c1' := c1; have c2' := c2
+      rw [← hst1] at c1' c2'
+      refine ⟨?_, ?_, ?_⟩
+      · rw [hd, i1, c1', hl]; simp only [List.map_cons, List.sum_cons]; ring
+      · rw [hd, i2, c2', hel]; simp only [List.map_cons, List.sum_cons]; ring
+      · rw [hd]; simp only [List.length_cons, i3]
+
+/-! ## Caches along a route -/
 
 /-- the caches of a vehicle are fine for the units the traversal model predicts with -/
 def CachesFine (v : Vehicle α) (su : SpeedUnit) (gu : GradeUnit) (c : Caches K α) : Prop :=
